@@ -30,6 +30,9 @@ type Case struct {
 	Elem int  `json:"elem"` // 0 int/NewOrdered, 1 int/reversed comparator, 2 string/NewOrdered, 3 struct/lexicographic
 	U    int  `json:"u"`    // values are drawn from 0..U
 	Ops  []Op `json:"ops"`
+	// CheckEvery > 1: the (O(n)) full comparison with the model runs only after every CheckEvery-th op and at the end
+	// (big trees); Remove's result is still checked on every call
+	CheckEvery int `json:"check_every,omitempty"`
 }
 
 type pair struct{ A, B int8 }
@@ -89,7 +92,7 @@ func Run(c Case) pbt.Outcome {
 		})
 	case 2:
 		return run(c, kit[string]{
-			mk: func(i int) string { return fmt.Sprintf("k%03d", i) }, un: func(v string) int { i, _ := strconv.Atoi(v[1:]); return i },
+			mk: func(i int) string { return fmt.Sprintf("k%06d", i) }, un: func(v string) int { i, _ := strconv.Atoi(v[1:]); return i },
 			cmpInt: func(a, b int) int { return typ.Compare(a, b) },
 			newT:   func() avl.Tree[string] { return avl.NewOrdered[string]() },
 		})
@@ -151,13 +154,12 @@ func run[T comparable](c Case, k kit[T]) pbt.Outcome {
 		if !shape.Exists(pre, in, post) {
 			return fmt.Sprintf("%s: no single binary tree has pre=%v in=%v post=%v", where(), pre, in, post)
 		}
+		present := make(map[int]bool, len(tr.model))
+		for _, m := range tr.model {
+			present[m] = true
+		}
 		for v := -1; v <= c.U+1; v++ {
-			has := false
-			for _, m := range tr.model {
-				if m == v {
-					has = true
-				}
-			}
+			has := present[v]
 			if v >= 0 && tr.t.Contains(k.mk(v)) != has {
 				return fmt.Sprintf("%s: Contains(%d) = %v, model says %v (contents %v, pre-order %v)", where(), v, !has, has, tr.model, pre)
 			}
@@ -201,7 +203,7 @@ func run[T comparable](c Case, k kit[T]) pbt.Outcome {
 					break
 				}
 			}
-			if idx >= 0 {
+			if idx >= 0 && len(tr.model) <= 300 {
 				// classify: does the node found by search have two children in (one of) the tree(s) revealed?
 				pre, in, post := ints(k, tr.t.SlicePreOrder()), ints(k, tr.t.SliceInOrder()), ints(k, tr.t.SlicePostOrder())
 				if t, ok := shape.Any(pre, in, post); ok {
@@ -283,6 +285,10 @@ func run[T comparable](c Case, k kit[T]) pbt.Outcome {
 		}
 		if len(tr.model) > maxN {
 			maxN = len(tr.model)
+		}
+		if c.CheckEvery > 1 && i%c.CheckEvery != 0 && op.K != "clone" {
+			lastPre[which] = nil // not re-read: the "untouched tree did not move" comparison restarts at the next full check
+			continue
 		}
 		// both trees are re-checked after every op: that is the independence check for clones
 		for w := 0; w < 2; w++ {
@@ -441,6 +447,73 @@ var specFib = pbt.Register(&pbt.Spec[FibCase]{
 	Run: RunFib, Exhaustive: true, CaseCPU: 120 * time.Second,
 })
 
+// ---------------------------------------------------------------- big trees
+
+type BigCase struct {
+	N    int `json:"n"`    // number of Adds
+	U    int `json:"u"`    // values 0..U (U < N: duplicates)
+	Step int `json:"step"` // multiplicative step of the value sequence
+	Elem int `json:"elem"`
+}
+
+func RunBig(c BigCase) pbt.Outcome {
+	var ops []Op
+	v := 1
+	for i := 0; i < c.N; i++ {
+		v = (v*c.Step + 7) % (c.U + 1)
+		ops = append(ops, Op{K: "add", V: v})
+		if i%97 == 96 {
+			ops = append(ops, Op{K: "rem", V: (v * 31) % (c.U + 1)})
+		}
+	}
+	ops = append(ops, Op{K: "walk", V: c.N / 3}, Op{K: "clone"})
+	for i := 0; i < c.N/2; i++ {
+		v = (v*c.Step + 7) % (c.U + 1)
+		ops = append(ops, Op{K: "rem", V: v, T: i % 2})
+	}
+	ops = append(ops, Op{K: "walk", V: 5, T: 1}, Op{K: "walk", V: 9})
+	out := Run(Case{Elem: c.Elem, U: c.U, Ops: ops, CheckEvery: max(c.N/24, 2)})
+	out.Evals = len(ops)
+	out.NonTrivial = out.Violation == "" && c.N >= 257
+	switch {
+	case c.N >= 4097:
+		out.Labels = append(out.Labels, "n>=4097")
+	case c.N >= 1025:
+		out.Labels = append(out.Labels, "n>=1025")
+	case c.N >= 257:
+		out.Labels = append(out.Labels, "n>=257")
+	}
+	return out
+}
+
+var specBig = pbt.Register(&pbt.Spec[BigCase]{
+	Property: "C01", Name: "C01.big",
+	Rule: "big trees: N in {257, 300, 1023, 1025, 2000, 4097, 5000} (thorough also 20000) adds of pseudo-random values from 0..U (U ~ N/2: many duplicates) interleaved with removes, a Clone, then N/2 removes alternating " +
+		"between original and clone; full model comparison (in-order, Len, Contains sweep, one-tree oracle, walks with nested reads) at ~24 checkpoints and at the end; non-trivial = N >= 257",
+	Enum: func(shard, shards int, tier string, yield func(BigCase) bool) {
+		sizes := []int{257, 300, 1023, 1025, 2000, 4097, 5000}
+		if tier == "thorough" {
+			sizes = append(sizes, 20000)
+		}
+		k := 0
+		for _, n := range sizes {
+			for _, step := range []int{5, 1103} {
+				for _, elem := range []int{0, 2} {
+					k++
+					if k%shards != shard {
+						continue
+					}
+					if !yield(BigCase{N: n, U: n / 2, Step: step, Elem: elem}) {
+						return
+					}
+				}
+			}
+		}
+	},
+	Run: RunBig, Exhaustive: true, CaseCPU: 300 * time.Second,
+})
+
+func TestC01Big(t *testing.T)  { pbt.Check(t, specBig) }
 func TestC01Fib(t *testing.T)  { pbt.Check(t, specFib) }
 func TestC01Hist(t *testing.T) { pbt.Check(t, specHist) }
 func TestReplay(t *testing.T)  { pbt.Replay(t) }
